@@ -12,8 +12,9 @@
 ** characters, the object pointer).
 **
 ** Parameters
-**   mode=grid|show|missing     grid: specification grid;  show: %$ on containers;
-**                              missing: too few arguments
+**   mode=grid|show|missing|ladder   grid: specification grid;  show: %$ on containers;
+**                              missing: too few arguments;  ladder: chunks of exactly N output
+**                              characters for every N in 1..n (n=300) and around powers of two up to pmax, three sinks, follow-up print
 **   conv=<letters>             conversions handled by this instance (from "diuoxXcsfFeEgGaAp$")
 **   grid=full|mid|small        full: width {none,1,5,12} x precision {none,.0,.3,.10}, all values,
 **                              mid:  width {none,5} x precision {none,.3}, values of level <= 1,
@@ -679,6 +680,203 @@ static void show_mode(void) {
   }
 }
 
+/* ---- length ladder ------------------------------------------------------------------------
+** Chunks (one format_to call inside print_to_with) whose C output is exactly N characters, for
+** every N in 1..n, produced in several ways, at starts {0, 5, current length}, into the String
+** sink, a File over open_memstream and a File over tmpfile(); each followed by a second
+** print_to appended at the returned position, so that an early terminator, a lost character or
+** a wrong position shows in the final content.  Crosses every internal buffer size a sink
+** might use (64, 128, 256, 512, 1024 and their neighbours).
+*/
+
+#define LAD_MAX 8300
+#define NFORMS 11
+static const char* FORMNAME[NFORMS] = { "%Nd", "%-Ns|%i", "%.(N-2)f", "%.Nd", "N-literal", "N-literal+%d", "%s-of-N-chars",
+                                        "%$-of-N-char-String", "%-Nc", "%N.3e", "%#0Nx" };
+static const int LSTARTS[3] = { 0, 5, PLEN };
+static const char* LSINK[3] = { "string", "file-memstream", "file-tmpfile" };
+static FILE* LFP[3]; static var LFO[3];
+static char LEXP[2 * LAD_MAX + 64], LFMT[2 * LAD_MAX + 64], LGOT[3][2 * LAD_MAX + 256];
+static int R_form = -1;
+
+static const char* lenclass(int n) {
+  static char b[32];
+  if (n < 63) return "len<63";
+  int p = 64; while (p * 2 <= n + 1) p *= 2;         /* largest power of two with p-1 <= n */
+  if (n >= p - 1 && n <= p + 1) snprintf(b, sizeof b, "len=%d", n);
+  else snprintf(b, sizeof b, "len=%d..%d", p + 2, 2 * p - 2);
+  return b;
+}
+
+static void pattern(char* b, int n) {
+  static const char al[] = "abcdefghijklmnopqrstuvwxyz0123456789ABCDEFGHIJKLMNOPQRSTUVWXYZ";
+  for (int i = 0; i < n; i++) b[i] = al[i % (sizeof al - 1)];
+  b[n] = 0;
+}
+
+struct lres { int ret1, ret2; var exc; size_t len; int prefix_ok; };
+
+/* print fmt/args at start, then "<%i>" of 99 at the returned position; collect everything after the prefix */
+static void __attribute__((noinline)) ladder_run(int k, int start, const char* fmt, var args, struct lres* r) {
+  volatile int r1 = -77777, r2 = -77777;
+  var N99 = $I(99);
+  var t99 = tuple(N99);
+  memset(r, 0, sizeof *r);
+  if (k == 0) {
+    assign(SS, PFX);
+    var e = VF_CATCH({ r1 = print_to_with(SS, start, fmt, args); if (r1 >= 0 && r1 < 100000) r2 = print_to_with(SS, r1, "<%i>", t99); });
+    vf.executions += 2;
+    r->exc = e;
+    const char* g = c_str(SS); size_t gl = strlen(g);
+    r->prefix_ok = gl >= (size_t)start && memcmp(g, PREFIX, start) == 0;
+    size_t off = r->prefix_ok ? (size_t)start : 0;
+    r->len = gl - off; if (r->len >= sizeof LGOT[0]) r->len = sizeof LGOT[0] - 1;
+    memcpy(LGOT[k], g + off, r->len); LGOT[k][r->len] = 0;
+  } else {
+    FILE* f = LFP[k];
+    fseeko(f, 0, SEEK_SET); fwrite(PREFIX, 1, PLEN, f);
+    var e = VF_CATCH({ r1 = print_to_with(LFO[k], start, fmt, args); if (r1 >= 0 && r1 < 100000) r2 = print_to_with(LFO[k], r1, "<%i>", t99); });
+    vf.executions += 2;
+    r->exc = e;
+    off_t end = ftello(f); fflush(f);
+    const char* data = mbuf;
+    if (k == 2) {
+      if ((size_t)end + 1 > rcap) { rcap = end + 4096; rbuf = realloc(rbuf, rcap); }
+      fseeko(f, 0, SEEK_SET); if (fread(rbuf, 1, end, f) != (size_t)end) { fprintf(stderr, "h_fmt: short read\n"); _exit(2); }
+      data = rbuf;
+    }
+    r->prefix_ok = end >= PLEN && memcmp(data, PREFIX, PLEN) == 0;
+    size_t off = r->prefix_ok ? PLEN : 0;
+    r->len = (size_t)end - off; if (r->len >= sizeof LGOT[0]) r->len = sizeof LGOT[0] - 1;
+    memcpy(LGOT[k], data + off, r->len); LGOT[k][r->len] = 0;
+  }
+  r->ret1 = r1; r->ret2 = r2;
+}
+
+static char* tail(const char* s, size_t n) {          /* the last characters, where ladder faults show */
+  return n > 40 ? printable(s + n - 40, 40) : printable(s, n);
+}
+
+static void ladder_mode(void) {
+  int maxn = (int)vf_param_i("n", 300);
+  if (maxn > LAD_MAX) maxn = LAD_MAX;
+  LFP[1] = ffp; LFO[1] = FF;                    /* main made these (open_memstream) */
+  LFP[2] = tmpfile();
+  if (!LFP[2]) { perror("h_fmt: tmpfile"); _exit(2); }
+  LFO[2] = $(File, LFP[2]);                     /* ladder_mode's block outlives every use */
+  var shown = new_raw(String);
+  char* strN = NULL;
+  uint64_t chunks = 0;
+  /* the ladder: every N in 1..n, then the neighbours (-2..+2) of every larger power of two up to pmax */
+  int pmax = (int)vf_param_i("pmax", 4096);
+  if (pmax + 2 > LAD_MAX) pmax = LAD_MAX - 2;
+  int* NS = malloc((maxn + 5 * 16) * sizeof *NS); int nn = 0;
+  for (int n = 1; n <= maxn; n++) NS[nn++] = n;
+  for (int p2 = 512; p2 <= pmax; p2 *= 2) for (int d = -2; d <= 2; d++) if (p2 + d > maxn) NS[nn++] = p2 + d;
+  for (int ni = 0; ni < nn; ni++) {
+    int n = NS[ni];
+    if (R_on && R_n >= 0 && n != R_n) continue;
+    for (int form = 0; form < NFORMS; form++) {
+      if (R_on && R_form >= 0 && form != R_form) continue;
+      if (form == 2 && n < 3) continue;
+      vf_watchdog(60);
+      vf_set_cur("ladder n=%d form=%d | %s with N=%d (all starts, sinks)", n, form, FORMNAME[form], n);
+      /* exact-size heap argument string (an over-read is an ASan report) */
+      free(strN); strN = malloc(n + 1); pattern(strN, n);
+      var aI7 = $I(7), aI42 = $I(42), aIm5 = $I(-5), aIx = $I('x'), aI255 = $I(255);
+      var aF = $F(0.5), aG = $F(123456.789), aAB = $S("ab"), aN = $S(strN);
+      var t0 = tuple(), tI7 = tuple(aI7), tS2 = tuple(aAB, aI42), tF = tuple(aF), tIm5 = tuple(aIm5), tN = tuple(aN),
+          tC = tuple(aIx), tG = tuple(aG), tX = tuple(aI255);
+      volatile var args = t0;     /* assigned before a try block below */
+      int el = -1;
+      switch (form) {
+      case 0: sprintf(LFMT, "%%%dd", n);        el = snprintf(LEXP, sizeof LEXP, LFMT, 7); args = tI7; break;
+      case 1: sprintf(LFMT, "%%-%ds|%%i", n);   el = snprintf(LEXP, sizeof LEXP, LFMT, "ab", 42); args = tS2; break;
+      case 2: sprintf(LFMT, "%%.%df", n - 2);   el = snprintf(LEXP, sizeof LEXP, LFMT, 0.5); args = tF; break;
+      case 3: sprintf(LFMT, "%%.%dd", n);       el = snprintf(LEXP, sizeof LEXP, LFMT, 7); args = tI7; break;
+      case 4: pattern(LFMT, n);                 el = snprintf(LEXP, sizeof LEXP, "%s", LFMT); args = t0; break;
+      case 5: pattern(LFMT, n); strcat(LFMT, "%d"); el = snprintf(LEXP, sizeof LEXP, LFMT, -5); args = tIm5; break;
+      case 6: strcpy(LFMT, "%s");               el = snprintf(LEXP, sizeof LEXP, LFMT, strN); args = tN; break;
+      case 7: {
+        /* reference for %$: what show_to writes through the C library's own stream (memstream File, position 0) */
+        strcpy(LFMT, "%$"); args = tN;
+        fseeko(LFP[1], 0, SEEK_SET);
+        volatile int sr = -1;
+        var e = VF_CATCH(sr = show_to(aN, LFO[1], 0));
+        off_t end = ftello(LFP[1]); fflush(LFP[1]);
+        vf.executions++;
+        if (e || sr != (int)end || (size_t)end >= sizeof LEXP || end < n) {
+          vf_violation("ladder/%$-of-N-char-String/show-reference", NULL, "show_to(String of %d chars, file, 0) returned %d, wrote %ld characters%s", n, sr, (long)end, e ? " and raised" : "");
+          continue;
+        }
+        memcpy(LEXP, mbuf, end); LEXP[end] = 0; el = (int)end;
+        break; }
+      case 8: sprintf(LFMT, "%%-%dc", n);       el = snprintf(LEXP, sizeof LEXP, LFMT, 'x'); args = tC; break;
+      case 9: sprintf(LFMT, "%%%d.3e", n);      el = snprintf(LEXP, sizeof LEXP, LFMT, 123456.789); args = tG; break;
+      case 10: sprintf(LFMT, "%%#0%dx", n);     el = snprintf(LEXP, sizeof LEXP, LFMT, 255u); args = tX; break;
+      }
+      if (el < 0 || (size_t)el + 8 >= sizeof LEXP) { fprintf(stderr, "h_fmt: ladder oracle failed (form %d, n %d)\n", form, n); _exit(2); }
+      size_t tl = (size_t)el;                 /* length of the first print's text */
+      strcpy(LEXP + el, "<99>");
+      size_t xl = tl + 4;
+      size_t fl = strlen(LFMT);
+      char* fmt = malloc(fl + 1); memcpy(fmt, LFMT, fl + 1);
+      chunks++;
+      if (count_nt && n >= 64) vf.nontrivial++;
+      for (int si = 0; si < 3; si++) {
+        if (R_on && R_s >= 0 && si != R_s) continue;
+        int st = LSTARTS[si];
+        struct lres res[3]; int ran[3] = { 0, 0, 0 }, okk[3] = { 0, 0, 0 };
+        for (int k = 0; k < 3; k++) {
+          if (R_on && R_k >= 0 && k != R_k) continue;
+          struct lres* r = &res[k];
+          ladder_run(k, st, fmt, args, r);
+          ran[k] = 1;
+          vf.evaluations++;
+          const char* sym = NULL; char symb[64];
+          if (r->exc) { snprintf(symb, sizeof symb, "raises-%s", vf_exc_name(r->exc)); sym = symb; }
+          else if (!r->prefix_ok) sym = "prefix-damaged";
+          else if (r->len < xl && memcmp(LGOT[k], LEXP, r->len) == 0) sym = r->len < tl ? "text-truncated" : "follow-up-truncated";
+          else if (r->len != xl || memcmp(LGOT[k], LEXP, xl) != 0) {
+            /* where does it first differ: inside the chunk or in the appended text */
+            size_t d = 0; while (d < r->len && d < xl && LGOT[k][d] == LEXP[d]) d++;
+            sym = d < tl ? "text-differs" : "follow-up-misplaced";
+          }
+          else if (r->ret1 != st + (int)tl) sym = "position";
+          else if (r->ret2 != st + (int)xl) sym = "follow-up-position";
+          if (sym) {
+            char lab[200], cs[160];
+            snprintf(lab, sizeof lab, "ladder/%s/%s/%s/%s", FORMNAME[form], lenclass(n), k == 0 ? "string" : "file", sym);
+            snprintf(cs, sizeof cs, "ladder n=%d form=%d s=%d k=%d | %s N=%d start %d sink %s", n, form, si, k, FORMNAME[form], n, st, LSINK[k]);
+            vf_violation(lab, cs, "print_to(%s, %d, %s) then print_to(.., returned position, \"<%%i>\", 99): %zu characters after the prefix ending '%s', returned %d then %d; "
+              "C printf writes %zu characters ending '%s', positions %d then %d",
+              LSINK[k], st, FORMNAME[form], r->len, tail(LGOT[k], r->len), r->ret1, r->ret2, xl, tail(LEXP, xl), st + (int)tl, st + (int)xl);
+          } else okk[k] = 1;
+        }
+        /* String sink == File sinks, compared directly */
+        for (int k = 1; k < 3; k++) {
+          if (!ran[0] || !ran[k]) continue;
+          vf.evaluations++;
+          if (res[0].exc || res[k].exc) continue;
+          if (res[0].len != res[k].len || memcmp(LGOT[0], LGOT[k], res[0].len) != 0 || res[0].ret1 != res[k].ret1 || res[0].ret2 != res[k].ret2) {
+            char lab[200], cs[160];
+            snprintf(lab, sizeof lab, "ladder/%s/%s/sinks-differ", FORMNAME[form], lenclass(n));
+            snprintf(cs, sizeof cs, "ladder n=%d form=%d s=%d | %s N=%d start %d", n, form, si, FORMNAME[form], n, st);
+            vf_violation(lab, cs, "String sink holds %zu characters ending '%s' (returned %d, %d); %s holds %zu ending '%s' (returned %d, %d)",
+              res[0].len, tail(LGOT[0], res[0].len), res[0].ret1, res[0].ret2, LSINK[k], res[k].len, tail(LGOT[k], res[k].len), res[k].ret1, res[k].ret2);
+          }
+        }
+        if (form != 7 && (n & (n - 1)) == 0 && n >= 64 && vf_want_sample())
+          vf_sample("ladder %s N=%d start %d: %zu characters on all three sinks, positions %d then %d", FORMNAME[form], n, st, xl, st + (int)tl, st + (int)xl);
+      }
+      free(fmt);
+    }
+  }
+  vf_extra("ladder_max_n", "%d", maxn);
+  vf_extra("ladder_powers_of_two_up_to", "%d", pmax);
+  vf_extra("ladder_chunks", "%" PRIu64, chunks);
+}
+
 /* ---- main ---------------------------------------------------------------------------------- */
 
 static void parse_replay(const char* r) {
@@ -695,6 +893,8 @@ static void parse_replay(const char* r) {
   if ((p = strstr(r, " s="))) R_s = atoi(p + 3);
   if ((p = strstr(r, " k="))) R_k = atoi(p + 3);
   if ((p = strstr(r, " n="))) R_n = atoi(p + 3);
+  if ((p = strstr(r, " form="))) R_form = atoi(p + 6);
+  if (strncmp(r, "ladder", 6) == 0) return;
   if ((p = strstr(r, "h="))) R_h = atoi(p + 2);
 }
 
@@ -724,6 +924,7 @@ int main(int argc, char** argv) {
   SS = new_raw(String);
   PFX = new_raw(String, $S(PREFIX));
   file_is_tmp = vf_param_is("file", "tmpfile", "memstream");
+  if (strcmp(mode, "ladder") == 0 || (vf.replay && strncmp(vf.replay, "ladder", 6) == 0)) file_is_tmp = 0;   /* the ladder opens both */
   if (file_is_tmp) ffp = tmpfile(); else ffp = open_memstream(&mbuf, &msize);
   if (!ffp) { perror("h_fmt: cannot create the File sink"); _exit(2); }
   FF = $(File, ffp);
@@ -732,11 +933,14 @@ int main(int argc, char** argv) {
     parse_replay(vf.replay);
     if (strncmp(vf.replay, "missing", 7) == 0) mode = "missing";
     else if (strncmp(vf.replay, "show", 4) == 0) mode = "show";
+    else if (strncmp(vf.replay, "ladder", 6) == 0) mode = "ladder";
     else if (R_v >= 1000) { mode = "show"; R_h = R_v - 1000; R_v = -1; }
     else mode = "grid";
   }
 
-  if (strcmp(mode, "show") == 0) {
+  if (strcmp(mode, "ladder") == 0) {
+    ladder_mode();
+  } else if (strcmp(mode, "show") == 0) {
     show_mode();
     vf_extra("container_shapes", "%d", NSHAPES);
   } else {
@@ -747,7 +951,7 @@ int main(int argc, char** argv) {
     vf_extra("specifications", "%" PRIu64, n_specs);
     vf_extra("spec_value_pairs", "%" PRIu64, n_pairs);
   }
-  vf_extra("grid", "\"%s: %d widths x %d precisions, value level <= %d, 8 contexts, %d starts, 2 sinks (File over %s)\"",
+  if (strcmp(mode, "ladder") != 0) vf_extra("grid", "\"%s: %d widths x %d precisions, value level <= %d, 8 contexts, %d starts, 2 sinks (File over %s)\"",
     grid, nW, nP, maxlevel, nStart, file_is_tmp ? "tmpfile" : "open_memstream");
   vf_finish();
   return 0;
